@@ -87,9 +87,54 @@ type hgen struct {
 	now  int64
 	out  [][2]string
 	tag  int
+	cx   map[[2]string]int64
+	done map[[2]string]int64
 }
 
 func (g *hgen) kc() (string, string) { return gen.Pick(g.r, g.keys), gen.Pick(g.r, g.cmds) }
+
+// a lookup exactly at / one unit around the expiry of an entry we believe completed
+func (g *hgen) boundary(now int64) (Op, bool) {
+	r := g.r
+	if len(g.done) == 0 || !r.Chance(1, 9) {
+		return Op{}, false
+	}
+	var kcs [][2]string
+	for kc := range g.done {
+		kcs = append(kcs, kc)
+	}
+	sort.Slice(kcs, func(i, j int) bool { return kcs[i][0]+"\x00"+kcs[i][1] < kcs[j][0]+"\x00"+kcs[j][1] })
+	kc := gen.Pick(r, kcs)
+	x := g.done[kc]
+	if d := x - unixMilli(now); d < -20 || d > 1000 {
+		return Op{}, false
+	}
+	at := x*1000000 + gen.Pick(r, []int64{-1, 0, 1, 500000, 999999, 1000000, -1000000})
+	if at > g.now {
+		g.now = at
+	}
+	delete(g.done, kc)
+	return Op{Op: "flight", K: kc[0], C: kc[1], TTL: g.ttl(), Now: at}, true
+}
+
+func (g *hgen) noteFlight(k, c string, ttl, now int64) {
+	kc := [2]string{k, c}
+	if _, ok := g.cx[kc]; !ok {
+		g.cx[kc] = (unixMilli(now+ttl)) & (two56 - 1)
+	}
+}
+
+func (g *hgen) noteUpdate(k, c string, m *lruh.M) {
+	kc := [2]string{k, c}
+	if cx, ok := g.cx[kc]; ok {
+		x := m.Xat
+		if cx < x || x == 0 {
+			x = cx
+		}
+		g.done[kc] = x
+		delete(g.cx, kc)
+	}
+}
 
 func (g *hgen) tick() int64 {
 	r := g.r
@@ -157,11 +202,15 @@ func (g *hgen) pickOut(p, q int) (string, string) {
 func (g *hgen) op(gaps bool, depth int) Op {
 	r := g.r
 	now := g.tick()
+	if o, ok := g.boundary(now); ok {
+		return o
+	}
 	x := r.Intn(100)
 	switch {
 	case x < 45:
 		k, c := g.kc()
 		o := Op{Op: "flight", K: k, C: c, TTL: g.ttl(), Now: now}
+		g.noteFlight(k, c, o.TTL, now)
 		g.out = append(g.out, [2]string{k, c})
 		if depth == 0 && gaps && r.Chance(1, 2) {
 			for j := r.Range(1, 3); j > 0; j-- {
@@ -171,7 +220,9 @@ func (g *hgen) op(gaps bool, depth int) Op {
 		return o
 	case x < 70:
 		k, c := g.pickOut(5, 6)
-		return Op{Op: "update", K: k, C: c, Msg: g.msg(now)}
+		m := g.msg(now)
+		g.noteUpdate(k, c, m)
+		return Op{Op: "update", K: k, C: c, Msg: m}
 	case x < 76:
 		k, c := g.pickOut(3, 4)
 		return Op{Op: "cancel", K: k, C: c, Err: r.Range(1, 3)}
@@ -215,10 +266,12 @@ func (g *hgen) gapop(k, c string) Op {
 }
 
 func genCase(r *gen.Rand, i int) any {
+	r = lruh.Reseed(r)
 	c := &Case{Kind: "hist"}
 	nk := r.Range(1, len(keyPool))
 	nc := r.Range(1, len(cmdPool))
-	g := &hgen{r: r, keys: keyPool[:nk], cmds: cmdPool[:nc], now: lruh.T0ns + int64(r.Intn(1000))*1000000 + int64(r.Intn(1000000))}
+	g := &hgen{r: r, keys: keyPool[:nk], cmds: cmdPool[:nc], now: lruh.T0ns + int64(r.Intn(1000))*1000000 + int64(r.Intn(1000000)),
+		cx: map[[2]string]int64{}, done: map[[2]string]int64{}}
 	gaps := r.Chance(1, 3)
 	if gaps {
 		c.Kind = "hist-gap"
